@@ -14,7 +14,7 @@ PROP = {'id': 'C12',
                'HpcSubmitter.run',
                'AsyncHpcSubmitter.is_complete',
                'HpcStatusCollector.check_status'],
- 'native': ['HpcSubmitter.run', 'JobSubmitter._handle_completion'],
+ 'native': ['HpcSubmitter.run', 'JobSubmitter._handle_completion', 'HpcSubmitter._update_status'],
  'records': ['AsyncHpcSubmitter', 'JobQueue', 'JobSubmitter'],
  'min_obligations': 600,
  'assumptions': ['E1/E2 (environment) for "reaches completion"; the fault schedules (failed sbatch, lost nodes) are explored only by the bounded simulator',
